@@ -34,7 +34,7 @@ def canon(c):
         if isinstance(v, list):
             return [val(x) for x in v]
         return v.strip('"') if isinstance(v, str) and v.startswith('"') else v
-    return (c.name, sorted((k, repr(val(v))) for k, v in c.arguments.items()), sorted((k, repr(val(v))) for k, v in c.extra_arguments.items()),
+    return (c.name, sorted(((k, val(v)) for k, v in c.arguments.items()), key=lambda kv: kv[0]), sorted(((k, val(v)) for k, v in c.extra_arguments.items()), key=lambda kv: kv[0]),
             [canon(ch) for ch in c.children])
 
 
